@@ -19,11 +19,11 @@ theorem C05_monitor (eps : α) (genKeys : List String) (n : Nat) (obs : List (St
       |optVal (loadOf g.loads c.id)| ≤ c.maxPower + eps := by
   unfold run at hi hvalid
   simp only at hi hvalid
-  obtain ⟨h, e⟩ := runLoop_getElem eps genKeys n obs i hi
+  obtain ⟨h, e⟩ := simLoop_getElem eps genKeys n obs i hi
   refine ⟨h, ?_⟩
-  have hok : ((runLoop eps genKeys n obs)[i]'hi).ok = true := by
+  have hok : ((simLoop eps genKeys n obs)[i]'hi).ok = true := by
     rcases hvalid with hv | hv
-    · exact runLoop_ok_before_last eps genKeys n obs i hv
+    · exact simLoop_ok_before_last eps genKeys n obs i hv
     · rw [List.any_eq_false] at hv
       have := hv _ (List.getElem_mem hi)
       simpa using this
@@ -91,7 +91,7 @@ theorem C05_headroom (load curMax p avg : α) (hp : p ≤ curMax - load) (ha : a
 after `Greedy.step` / `Balanced.step` (allocation pass, surplus/V2G pass, battery pass) every
 station's accumulated power is at most its (concurrency-scaled) maximum `≥ 0`. -/
 theorem C05_greedy_balanced_station {B : Type} (rule : Rule) (ops : BatOps α B) (law : BatLaw ops)
-    (env : StratEnv α) (w w' : World α B) (cmds : List (String × α))
+    (env : StratEnv α) (w w' : SWorld α B) (cmds : List (String × α))
     (hmax : ∀ s ∈ w.stations, 0 ≤ s.maxPower)
     (h : ruleStep rule ops env w = .ok (w', cmds)) :
     ∀ s ∈ w'.stations, s.currentPower ≤ s.maxPower := by
